@@ -37,6 +37,7 @@ type Task struct {
 // across a blocking operation.
 type World struct {
 	conns []*Conn // every in-memory TCP connection end, for process death
+	links []*Link
 	mu      sync.Mutex
 	Tape    *Tape
 	tasks   map[int64]*Task
